@@ -361,13 +361,21 @@ func recvGrammar(e *Env) {
 	for _, m := range msgs {
 		verbs[m.exp.Cmd] = true
 	}
+	var seenBG []*client.Line
 	for _, v := range sortedKeys(verbs) {
 		s.c.HandleFunc(mixCase(g, v), func(c *client.Conn, l *client.Line) { seen = append(seen, l) })
+		// background handlers get the same lines, in no particular order
+		s.c.HandleBG(mixCase(g, v), client.HandlerFunc(func(c *client.Conn, l *client.Line) {
+			for i := e.S.Choose(3); i > 0; i-- {
+				simrt.Sleep(0)
+			}
+			seenBG = append(seenBG, l)
+		}))
 	}
 	if !s.connect() {
 		return
 	}
-	seen = nil // events of the registration phase (001 ...) are not part of the session
+	seen, seenBG = nil, nil // events of the registration phase (001 ...) are not part of the session
 	for _, m := range msgs {
 		term := "\r\n"
 		if g.S.Choose(8) == 0 {
@@ -394,7 +402,38 @@ func recvGrammar(e *Env) {
 			return
 		}
 	}
+	// the background handlers: the same multiset of lines
+	key := func(l *client.Line) string {
+		return fmt.Sprintf("%q|%q|%q|%q|%q|%q|%q|%v", l.Raw, l.Cmd, l.Args, l.Nick, l.Ident, l.Host, l.Src, sortedTagList(l.Tags))
+	}
+	want := map[string]int{}
+	for _, m := range msgs {
+		want[key(m.exp)]++
+	}
+	if len(seenBG) != len(msgs) {
+		e.Violation("delivered", "%d background handler invocations for %d messages", len(seenBG), len(msgs))
+		return
+	}
+	for _, l := range seenBG {
+		k := key(l)
+		if want[k] == 0 {
+			e.Violation("delivered", "a background handler was given a line that is none of the messages sent (or one of them once too often): Raw=%q Cmd=%q Args=%s Tags=%q", clip(l.Raw), l.Cmd, clipq(l.Args), l.Tags)
+			return
+		}
+		want[k]--
+	}
 	s.c.Close()
+}
+
+func sortedTagList(t map[string]string) []string {
+	if t == nil {
+		return nil
+	}
+	out := []string{"<tags>"}
+	for _, k := range sortedKeys(t) {
+		out = append(out, k+"="+t[k])
+	}
+	return out
 }
 
 // ---------------------------------------------------------------------------
